@@ -210,7 +210,7 @@ def run_inst(spec, run):
             return
         val = res["val"]
         run.obligation(ctx, "truth-table", z3.Or(S.term(val.lower) != res["ref"], S.term(val.upper) != res["ref"]), conc, known=kn)
-        run.validate(ctx, conc, lambda m: {"val": [S.model_int(m, val.lower), S.model_int(m, val.upper)]})
+        run.validate(ctx, conc, lambda m: {"val": [S.model_int(m, val.lower), S.model_int(m, val.upper)]}, known=kn)
         run.sample({"model": pl.show(model_spec), "how": how, "path_condition": [str(z3.simplify(c)) for c in ctx.pc][:6]})
 
     st = S.explore(fn, on_path, max_paths=6000, wall=900)
